@@ -2,7 +2,7 @@
    floats is run on the inputs the Go harness used and every returned number is
    compared bit for bit (feqb: +0/-0 distinguished, NaNs identified); plus an
    exact rational residual check of Go's output (no float arithmetic trusted). *)
-From Coq Require Import List Bool Arith ZArith QArith Qabs Floats.
+From Coq Require Import List Bool Arith ZArith QArith Qabs Floats SpecFloat.
 From ADV Require Import Base.Num Base.Corr C04.Model C04.Model2.
 Import ListNotations.
 Local Open Scope nat_scope.
@@ -51,6 +51,40 @@ Definition residual_vec (n : nat) (msk : list bool) (A : fmat) (x b : fvec) : Q 
 
 Definition all_finite_m (m : fmat) : bool := forallb (forallb finite) m.
 
+(* ---- round 3: the binary32 instance (Float32 / Real32 element types) ----
+   float32(x): rounding to binary32 by SpecFloat.binary_normalize 24 128 (nearest even, binary32
+   exponent range incl. subnormals and overflow); every binary32 number is a binary64 number, so
+   values are carried as Coq floats.  Float32 computes x op y in binary32, Real32 computes it in
+   binary64 and stores float32(.): both are r32 (x op64 y) — the double rounding is innocuous for
+   + - * / sqrt because 53 >= 2*24+2.  Abs and the comparisons are exact. *)
+Definition r32 (x : float) : float :=
+  match Prim2SF x with
+  | S754_finite s m e => SF2Prim (binary_normalize 24 128 (if s then Zneg m else Zpos m) e s)
+  | _ => x
+  end.
+Definition NumF32 : Num float :=
+  mkNum float PrimFloat.zero PrimFloat.one
+        (fun x y => r32 (PrimFloat.add x y)) (fun x y => r32 (PrimFloat.sub x y))
+        (fun x y => r32 (PrimFloat.mul x y)) (fun x y => r32 (PrimFloat.div x y))
+        PrimFloat.opp PrimFloat.abs (fun x => r32 (PrimFloat.sqrt x))
+        PrimFloat.ltb PrimFloat.leb PrimFloat.eqb
+        (fun z => r32 (of_Z NumF z)) (is_nan NumF).
+
+(* element types: 0 Float32, 1 Float64, 2 Real32, 3 Real64 *)
+Definition et32 (et : nat) : bool := match et with 0 | 2 => true | _ => false end.
+Definition num_of (et : nat) : Num float := if et32 et then NumF32 else NumF.
+Definition dense_of (et : nat) : bool := Nat.eqb et 1.   (* only DenseFloat64 has the fast path *)
+(* the containers are filled with float32(x) / x *)
+Definition inv_ (et : nat) (v : fvec) : fvec := if et32 et then map r32 v else v.
+Definition inm (et : nat) (m : fmat) : fmat := map (inv_ et) m.
+(* math.Log is not replayed: its values at the Cholesky diagonal come from the harness' table;
+   the scalar stores float32(math.Log(x)) for the 32 bit types *)
+Definition lsentinel : float := 0x1.badbadbadbadp+600%float.
+Fixpoint llookup (tb : list (float * float)) (x : float) : float :=
+  match tb with [] => lsentinel | (a, r) :: t => if feqb a x then r else llookup t x end.
+Definition lg_of (et : nat) (tb : list (float * float)) (x : float) : float :=
+  if et32 et then r32 (llookup tb x) else llookup tb x.
+
 Inductive kase :=
 (* gaussJordan.Run(a, x, b, Submatrix{msk}, UpperTriangular{ut}) on DenseFloat64 (dense) or DenseReal64 containers *)
 | KGJ (dense ut : bool) (n : nat) (msk : list bool) (a x : fmat) (b : fvec) (res : outcome (fmat * fmat * fvec))
@@ -72,7 +106,15 @@ Inductive kase :=
    the model is evaluated WITHOUT buffers whatever (dirty) InSitu buffers the harness supplied *)
 | KInv2 (dense : bool) (mode : nat) (n : nat) (msknil : bool) (msk : list bool) (m : fmat) (res : outcome fmat)
 (* backSubstitution.Run(A, b [, &InSitu{A: dirty buffer}]): the result never depends on the buffer *)
-| KBS2 (n : nat) (A : fmat) (hasb : bool) (b : fvec) (res : fvec).
+| KBS2 (n : nat) (A : fmat) (hasb : bool) (b : fvec) (res : fvec)
+(* typed cases: element type et, inputs as given (rounded by the model for the 32 bit types); the
+   harness ran the call after a HISTORY of other calls in the same process (other element types,
+   other routines, shared InSitu buffers) — the model is evaluated as if it were the first call *)
+| KTGJ (et : nat) (ut : bool) (n : nat) (msk : list bool) (a x : fmat) (b : fvec) (res : outcome (fmat * fmat * fvec))
+| KTInv (et : nat) (mode : nat) (n : nat) (msknil : bool) (msk : list bool) (m : fmat) (res : outcome fmat)
+| KTBS (et : nat) (n : nat) (A : fmat) (hasb : bool) (b : fvec) (res : fvec)
+| KTDet (et : nat) (n : nat) (a : fmat) (res : float)
+| KTDetPD (et : nat) (logscale : bool) (n : nat) (a : fmat) (logs : list (float * float)) (res : outcome float).
 
 Definition check (c : kase) : bool :=
   match c with
@@ -99,6 +141,19 @@ Definition check (c : kase) : bool :=
   | KInv2 dense mode n msknil msk m res =>
       out_eqb meq (m_inverse_v2 NumF dense (mode_of mode) n (if msknil then None else Some msk) m) res
   | KBS2 n A hasb b res => veq (backsub_run_v2 NumF n A (if hasb then Some b else None) None (zeros NumF n)) res
+  | KTGJ et ut n msk a x b res =>
+      out_eqb st_eqb (gj_run (num_of et) (dense_of et) ut n msk (mkSt (inm et a) (inm et x) (inv_ et b)))
+              (match res with
+               | Ok (a', x', b') => Ok (mkSt a' x' b')
+               | ErrSingular => ErrSingular | PanicSingular => PanicSingular | ErrNotPD => ErrNotPD
+               | ErrPerm => ErrPerm | PanicIndex => PanicIndex | OutOfFuel => OutOfFuel end)
+  | KTInv et mode n msknil msk m res =>
+      out_eqb meq (m_inverse_v2 (num_of et) (dense_of et) (mode_of mode) n (if msknil then None else Some msk) (inm et m)) res
+  | KTBS et n A hasb b res =>
+      veq (backsub_run_v2 (num_of et) n (inm et A) (if hasb then Some (inv_ et b) else None) None (zeros NumF n)) res
+  | KTDet et n a res => feqb (det_naive (num_of et) n (inm et a)) res
+  | KTDetPD et logscale n a logs res =>
+      out_eqb feqb (det_pd_insitu (num_of et) (lg_of et logs) logscale n None (inm et a)) res
   end.
 
 Definition mism (cs : list kase) : list nat := mismatches check cs.
